@@ -132,6 +132,7 @@ def run(ctx, chk):
             chk.obls.append(o)
     chk.analysed['reachable_functions'] = nfun
     chk.analysed['dot_removal_sites'] = rule_dot_removal(ctx, chk, {'essential-dot': 'essential-dot', 'updir-kept': 'updir-kept',
+                                                                     'new-head-colon': 'essential-dot',
                                                                      'nonempty-relative': 'nonempty-relative'})
     chk.assumptions += ['C04: the recomposed text starts with "/" iff the absolute-path flag is set or a host precedes segments',
                         'C08: what normalisation does to the characters of each component (case, percent-encoding) is decided there']
